@@ -319,6 +319,10 @@ func (x *Exec) assumeLoaded(st *State, v *Term, T types.Type) {
 		x.addFactRaw(x.tt.Lt(x.tt.UF("birth$", "Int", v), st.clk))
 	case *types.Slice:
 		x.addFactRaw(x.tt.Lt(x.tt.UF("birth$", "Int", x.sArr(v)), st.clk))
+	case *types.Interface:
+		if v.Sort == "Val" {
+			x.assumeValExisting(st, v)
+		}
 	}
 }
 
@@ -327,10 +331,14 @@ func (x *Exec) store(st *State, p *Term, T types.Type, val Value) {
 		// split
 		s1 := st.clone()
 		s1.pc = x.tt.And(st.pc, p.Args[0])
+		savedPC := x.curPC
+		x.curPC = s1.pc
 		x.store(s1, p.Args[1], T, val)
 		s2 := st.clone()
 		s2.pc = x.tt.And(st.pc, x.tt.Not(p.Args[0]))
+		x.curPC = s2.pc
 		x.store(s2, p.Args[2], T, val)
+		x.curPC = savedPC
 		// merge heaps only
 		for k := range s1.heaps {
 			a := s1.heaps[k]
@@ -468,6 +476,13 @@ func (x *Exec) alloc(st *State, what string) *Term {
 	x.addFactRaw(tt.Eq(tt.UF("birth$", "Int", r), st.clk))
 	x.addFactRaw(tt.UF("isbase$", "Bool", r))
 	st.clk = tt.Add(st.clk, tt.IntLit(1))
+	// a fresh object is neither in a pool nor published
+	for _, g := range []string{"G$redeemed", "G$published"} {
+		if _, used := x.heapSorts[g]; used {
+			h := x.heap(st, g, arraySort("Int", "Bool"))
+			st.heaps[g] = tt.Store(h, r, tt.False())
+		}
+	}
 	return r
 }
 
@@ -538,15 +553,23 @@ func (x *Exec) noteInvStore(fieldPtr *Term) {
 		return
 	}
 	k := fmt.Sprintf("%d|%s", base.id, tn)
-	if _, ok := x.invWritten[k]; !ok {
-		x.invWritten[k] = invObj{base, tn}
+	cond := x.curPC
+	if cond == nil {
+		cond = x.tt.True()
+	}
+	if o, ok := x.invWritten[k]; !ok {
+		x.invWritten[k] = invObj{base, tn, cond}
 		x.invOrder = append(x.invOrder, k)
+	} else {
+		o.cond = x.tt.Or(o.cond, cond)
+		x.invWritten[k] = o
 	}
 }
 
 type invObj struct {
 	base *Term
 	tn   string
+	cond *Term // path condition under which the object was written
 }
 
 // checkTypeInvs: at function exit every object whose fields were written satisfies its type invariant.
@@ -560,7 +583,7 @@ func (x *Exec) checkTypeInvs(fr *Frame, st *State) {
 			g := x.evalBool(env, c.Expr)
 			// objects handed back to a pool need not satisfy their invariant any more
 			red := x.tt.Select(x.heap(st, "G$redeemed", arraySort("Int", "Bool")), o.base)
-			x.oblige(fr, st, "struct-inv", fmt.Sprintf("%s:%d", o.tn, i+1), x.sweepTagsOr(fr), x.tt.Or(red, x.tt.Eq(o.base, x.tt.IntLit(0)), g), "type invariant of "+o.tn+": "+c.Text)
+			x.oblige(fr, st, "struct-inv", fmt.Sprintf("%s:%d", o.tn, i+1), x.sweepTagsOr(fr), x.tt.Implies(o.cond, x.tt.Or(red, x.tt.Eq(o.base, x.tt.IntLit(0)), g)), "type invariant of "+o.tn+": "+c.Text)
 		}
 		x.inTypeInv--
 	}
